@@ -173,7 +173,7 @@ func relBig(op int, cmp int) bool {
 
 func checkC03(c *Ctx) {
 	c.Res.Rule = "single comparisons `path op literal` with an integer or decimal literal (boundary pools: 0, +-1, 2^31, 2^53+-1, int64 limits, halfway decimals, exponents, subnormals) in every spelling of the six relational operators, attribute drawn near the literal (equal, +-1, +-ulp, +-fraction, NaN, +-Inf, -0, int/int32/int64/float64) or of a non-numeric type; expected verdict computed independently with math/big; non-trivial = distinct (literal, operator, attribute) with a numeric attribute inside the quantifier domain"
-	n := c.budget(25000, 300000)
+	n := c.budget(25000, 900000)
 	var batch []*leafCase
 	prev := &pairMem{}
 	judge := func() {
@@ -287,7 +287,7 @@ func checkC03(c *Ctx) {
 		for _, t := range badDblPool {
 			add(t)
 		}
-		for i := 0; i < c.budget(3000, 60000); i++ {
+		for i := 0; i < c.budget(3000, 180000); i++ {
 			add(genDbl(c.R))
 		}
 		for i := 0; i < 500; i++ {
@@ -448,7 +448,7 @@ func strRelGo(op int, a, b string) bool {
 
 func checkC04(c *Ctx) {
 	c.Res.Rule = "single comparisons with a quoted literal without backslash (empty, blanks, mixed case, non-ASCII incl. characters whose lower-casing changes the byte length, control characters) under the nine string operators in every spelling; attribute = the literal / a case variant / a prefix, suffix or infix extension / invalid UTF-8 / a fmt.Stringer / a non-string; expected verdict computed with strings.ToLower and Go's own string relations; non-trivial = distinct (literal, operator, attribute) with a string-like attribute"
-	n := c.budget(25000, 300000)
+	n := c.budget(25000, 900000)
 	var batch []*leafCase
 	prev := &pairMem{}
 	judge := func() {
@@ -516,7 +516,7 @@ func checkC04(c *Ctx) {
 
 func checkC08(c *Ctx) {
 	c.Res.Rule = "`p in [v1..vn]` (1-6 elements incl. duplicates, all comma spacings) against the expanded `p eq v1 or ... or p eq vn`, both evaluated by the engine on the same object, for integer, decimal and string lists; attribute = a member / case variant / float64 equal to an integer member / neighbour / other type / absent; also inside compound rules with several lists; non-trivial = distinct (list, attribute) where the attribute has the list's type family"
-	n := c.budget(12000, 200000)
+	n := c.budget(12000, 600000)
 	for i := 0; i < n && !c.full(); i++ {
 		kind := pick(c.R, []string{"ilist", "dlist", "slist"})
 		lf := &Node{T: NCmp, Path: genPath(c.R, 3), Op: 12, Lit: genLit(c.R, kind)}
@@ -721,7 +721,7 @@ func hasHugeComponent(s string) bool {
 
 func checkC09(c *Ctx) {
 	c.Res.Rule = "single comparisons with a version literal X.Y.Z (multi-digit components, 2^64 boundary) under the six relational operators in every spelling; attribute = valid semantic versions near the literal (bumped components, pre-release lists mixing numeric and alphanumeric identifiers, build metadata), near-misses (`1.0`, `v1.0.0`, `1.0.0.`, leading zeros, empty identifiers, blanks), Stringers and other types; expected verdict from an independent semver.org precedence with unbounded integers; non-trivial = distinct (literal, operator, attribute) where the attribute is a valid semantic version"
-	n := c.budget(25000, 300000)
+	n := c.budget(25000, 900000)
 	var batch []*leafCase
 	prev := &pairMem{}
 	judge := func() {
@@ -766,7 +766,7 @@ func checkC09(c *Ctx) {
 	{
 		var lines, want []string
 		pool := append(append([]string{}, verPool...), semverNear...)
-		for i := 0; i < c.budget(3000, 60000); i++ {
+		for i := 0; i < c.budget(3000, 180000); i++ {
 			a := pick(c.R, pool) + pick(c.R, semverSuffix)
 			b := pick(c.R, pool) + pick(c.R, semverSuffix)
 			if c.R.Chance(1, 3) {
@@ -825,7 +825,7 @@ func checkC09(c *Ctx) {
 
 func checkC10(c *Ctx) {
 	c.Res.Rule = "`p pr`, `p eq|ne null`, `p eq|ne true|false` with paths of 1-5 segments; the object holds at the path every value class (false, 0, \"\", empty object, nil, typed nil pointer, bool, numbers, strings, Stringers, slices ...) or misses it at a random depth (missing key or explicit nil parent); stand-alone and as the second operand of a compound whose first operand resolves another attribute; expected verdict from the statement; non-trivial = distinct (rule shape, value class, depth at which the path ends)"
-	n := c.budget(25000, 200000)
+	n := c.budget(25000, 600000)
 	for i := 0; i < n && !c.full(); i++ {
 		path := genPath(c.R, 5)
 		var lf *Node
@@ -1000,7 +1000,7 @@ func lawsOK(r sixResult) string {
 
 func checkC18(c *Ctx) {
 	c.Res.Rule = "for each ordered literal kind (integer, decimal, string, version): an attribute value and 2-3 literals from boundary pools (all pairs of the pools in thorough, random beyond); the six single-comparison rules are evaluated by the engine on the same object and the exported Operation methods are called directly with the same operands; laws: trichotomy, ne = not eq, le = lt or eq, ge = gt or eq, monotonicity in the literal, all-false when not comparable; no reference interpreter; non-trivial = distinct (attribute, literal pair) on which the attribute is comparable (some operator true)"
-	n := c.budget(8000, 120000)
+	n := c.budget(8000, 360000)
 	litOrder := func(kind string, a, b Lit) (int, bool) {
 		switch kind {
 		case "long":
